@@ -17,23 +17,28 @@ IMPORTS = "From PV Require Import Lib.Common Model.C06_Opt."
 SHARD = 40
 LEVEL_TEXT = ("Coq theorems, for every evaluation function, candidate set, subset size and random draw: the sorting optimiser returns k distinct "
               "candidates, reports the evaluation of exactly that decision and attains the minimum over all k-subsets when the objective is "
-              "separable; both hill climbers preserve feasibility and the multiset solution+complement, report the evaluation of the returned "
-              "decision, terminate within (n choose-with-order k) rounds and stop only where no single exchange lowers (violation, score) "
-              "lexicographically; SubsetRandomSampling, ReducedExchangeCrossover and ReducedExchangeMutation map feasible subsets to feasible "
-              "subsets for all index draws; integer rounding keeps values inside integer bounds. The model is tied to the code by evaluating "
-              "it inside Coq against the implementation's complete evalfn call sequence and outputs. For the pymoo-driven optimisers the "
-              "theorem part is the operators; every run is additionally validated by a result monitor (feasibility, bounds, dtype, reported "
-              "values == fresh evaluation, mutual non-domination, problem unchanged)")
+              "separable; both hill climbers preserve feasibility and the multiset solution+pool, report the evaluation of the returned "
+              "decision, terminate within n^k rounds and stop only where no single exchange lowers (violation, score) lexicographically; "
+              "SubsetRandomSampling, ReducedExchangeCrossover and ReducedExchangeMutation map feasible subsets to feasible subsets for all "
+              "index draws; integer rounding keeps values inside integer bounds; the MutatorA/B hill-climb step is refuted as coded and "
+              "proved under the guard nhcstep <= number of unused candidates. The model is tied to the code by evaluating it inside Coq "
+              "against the implementation's complete evalfn call sequence, scripted operator draws and outputs. For the pymoo-driven "
+              "optimisers the theorem part is the operators (and that the optimiser is configured with them); every run is additionally "
+              "validated by a result monitor, in Python and in Coq (feasibility, bounds, dtype, reported values == fresh evaluation, mutual "
+              "non-domination, problem unchanged)")
 LEVEL_NOTE = ("trusted: Coq kernel + vm_compute; pymoo's evolutionary loop, survival and result extraction (validated at run time only); "
-              "numpy.random.choice(replace=False) returning distinct positions; numpy float arithmetic on small integers being exact; "
-              "numpy argsort tie order is not relied upon (keys are compared); theorems are about the Gallina model, the tie to the code is "
-              "differential on generated inputs")
+              "numpy.random.choice(replace=False) returning distinct positions; numpy fancy-index assignment semantics (last write wins); "
+              "numpy float arithmetic on small integers being exact; numpy argsort tie order is not relied upon (keys are compared); the "
+              "other memetic mutations (steepest/stochastic descent) are covered by the run-time monitor only; theorems are about the "
+              "Gallina model, the tie to the code is differential on generated inputs")
 TECHNIQUE = "Coq proof over an executable model; in-Coq vm_compute correspondence (call traces, scripted draws); run-time result monitor"
-RULE = ("case = (kind, problem, draws): kinds sort|sd|ssd (table problems: linear + pair-interaction objective, clipped/raw inequality and "
-        "equality constraints, candidate sets of 1..10 elements incl. k=1, k=n, ties), op_sample|op_cx|op_mut|op_round (operators with "
-        "numpy.random replaced by a recording script), ga (all 15 pymoo-based classes, ngen 1..6, pop 1..12, with/without constraints, "
-        "infeasible problems); generated from one PRNG; non-trivial = climber makes at least one exchange / crossover exchanges at least "
-        "one element / sorting has k<n / GA returns a solution of a problem with >1 feasible decision; distinct by SHA-256 of the case")
+RULE = ("case = (kind, problem, draws): kinds sort|sd|ssd (integer table problems: linear + pair-interaction objective, clipped/raw "
+        "inequality and equality constraints, candidate sets of 1..10 (a few 11..16) elements incl. k=1, k=n, tied keys; sd with scripted "
+        "or seeded start), op_sample|op_cx|op_mut|op_round|op_hcAB (operators with numpy.random replaced by a recording script that honours "
+        "the arguments passed and is biased to boundaries/repeats), ga (all 15 pymoo-based classes, ngen 1..6, pop 1..12, with/without "
+        "constraints, certainly infeasible problems, k=n); generated from one PRNG; non-trivial = climber makes at least one exchange / "
+        "crossover exchanges at least one element / sorting or GA has k<n (or a non-degenerate box) / rounding has a fractional input / "
+        "hill-climb step changes the chromosome; distinct by SHA-256 of the case")
 TRUSTED = ["pymoo 0.6.2 GA/NSGA2/NSGA3 loops and Result extraction (not modelled; every run is checked by the result monitor)",
            "numpy.random.choice(..., replace=False) yields distinct positions (oracle contract assumed by sampling_feasible)",
            "numpy.random functions are replaced inside run_impl by a recording script for the operator cases; pymoo's default_rng(None) is "
@@ -97,8 +102,8 @@ def _parents(rng, cand, k):
     a = rng.sample(cand, k)
     mode = rng.random()
     if mode < 0.15: b = list(a); rng.shuffle(b)
-    elif mode < 0.35 and len(cand) >= 2 * k: b = rng.sample([c for c in cand if c not in a], k)
-    elif mode < 0.5 and len(cand) > k:
+    elif mode < 0.45 and len(cand) >= 2 * k: b = rng.sample([c for c in cand if c not in a], k)
+    elif mode < 0.55 and len(cand) > k:
         b = list(a); b[rng.randrange(k)] = rng.choice([c for c in cand if c not in a]); rng.shuffle(b)
     else: b = rng.sample(cand, k)
     return a, b
@@ -107,17 +112,17 @@ def gen_cases(rng, tier):
     q = tier == "quick"
     cases = []
     # --- exact optimisers
-    for i in range(160 if q else 1500):
+    for i in range(160 if q else 3000):
         ties = rng.random() < 0.35
         p = _tprob(rng, ties=ties, pairs=(False if rng.random() < 0.5 else None))
         cases.append({"kind": "sort", "prob": p})
-    for i in range(200 if q else 2000):
+    for i in range(200 if q else 4000):
         p = _tprob(rng, ties=rng.random() < 0.3)
         c = {"kind": "sd", "prob": p}
         if rng.random() < 0.85: c["ix"] = rng.sample(range(len(p["cand"])), p["k"])
         else: c["seed"] = rng.randint(0, 10 ** 6)
         cases.append(c)
-    for i in range(160 if q else 1500):
+    for i in range(160 if q else 3000):
         cases.append({"kind": "ssd", "prob": _tprob(rng, ties=rng.random() < 0.35)})
     # a larger instance of each exact optimiser
     for kind in ("sort", "sd", "ssd"):
@@ -131,8 +136,12 @@ def gen_cases(rng, tier):
         n = rng.randint(1, 9); M = n + rng.randint(0, 3); cand = rng.sample(range(M), n)
         cases.append({"kind": "op_sample", "cand": cand, "k": rng.choice([1, n, rng.randint(1, n)]), "n": rng.randint(0, 4),
                       "replace": rng.random() < 0.15, "seed": rng.randint(0, 10 ** 6)})
-    for i in range(140 if q else 1200):
-        n = rng.randint(1, 10); cand = rng.sample(range(n + 3), n); k = rng.choice([1, n, rng.randint(1, n), rng.randint(1, n)])
+    for i in range(140 if q else 2000):
+        if rng.random() < 0.3:
+            n = rng.randint(1, 10); k = rng.choice([1, n, rng.randint(1, n)])
+        else:
+            n = rng.randint(4, 12); k = rng.randint(2, max(2, n // 2))
+        cand = rng.sample(range(n + 3), n)
         mat = [_parents(rng, cand, k) for _ in range(rng.randint(1, 4))]
         if rng.random() < 0.08:                         # a parent with a repeated member: outside the theorem's hypothesis, still modelled
             a, b = mat[0]; a = list(a); a[-1] = a[0]; mat[0] = (a, b)
@@ -154,18 +163,26 @@ def gen_cases(rng, tier):
             base = rng.randint(-6, 6)
             vals.append(base + rng.choice([0.0, 0.5, 0.5, -0.5, 0.25, 0.75, 0.49999999999999994, 0.5000000000000001, rng.randint(-64, 64) / 64.0]))
         cases.append({"kind": "op_round", "which": which, "shape": shape, "vals": vals, "dtype": rng.choice(["int64", "int64", "int32"])})
+    for i in range(80 if q else 600):
+        n = rng.randint(2, 9); k = rng.randint(1, n - 1)
+        p = _tprob(rng, n=n, k=k, nobj=2, nineq=0, neq=0, symmetric=True)
+        cases.append({"kind": "op_hcAB", "which": rng.choice(["A", "B"]), "prob": p, "x": rng.sample(p["cand"], k),
+                      "nhcstep": rng.choice([None, None, 1, rng.randint(1, 2 * k + 1)]), "seed": rng.randint(0, 10 ** 6)})
     # --- pymoo-driven optimisers: result monitor
-    reps = 7 if q else 60
+    reps = 14 if q else 120
     for algo in SUBSET_GA:
         for r in range(reps):
             single = algo in SINGLE
             nobj = 1 if single else rng.choice([2, 2, 3])
-            n = rng.randint(2, 8) if algo in MEMETIC else rng.randint(1, 8)
-            k = rng.randint(1, max(1, n - 1)) if algo in MEMETIC else rng.choice([1, n, rng.randint(1, n)])
+            n = rng.randint(1, 8)
+            k = rng.choice([1, n, rng.randint(1, n), rng.randint(1, n)])
             memetic = algo in MEMETIC
             p = _tprob(rng, n=n, k=k, nobj=nobj, symmetric=True, nineq=(0 if memetic and rng.random() < 0.6 else None),
                        neq=(0 if memetic else None))
             p["clip"] = True
+            if r == 1 and not memetic:                # one inequality and one equality constraint with different values
+                p["C"] = [[rng.randint(0, 3) for _ in range(p["M"])]]; p["cap"] = [3 * k]; p["iwt"] = [1]
+                p["D"] = [[0] * p["M"]]; p["tgt"] = [0]; p["ewt"] = [1]
             if r == 0 and not memetic:                # certainly infeasible problem
                 p["C"] = [[1] * p["M"]]; p["cap"] = [k - 1]; p["iwt"] = [1]
             c = {"kind": "ga", "algo": algo, "ngen": rng.choice([1, 2, 3, 6]), "pop": rng.choice([1, 2, 4, 8, 12]),
@@ -426,6 +443,20 @@ def run_impl(case):
         res = numpy.asarray(res)
         return {"res": [int(v) for v in res.ravel()] if res.dtype.kind in "iu" else None, "res_f": [float(v).hex() for v in res.ravel()],
                 "dtype": str(res.dtype), "shape": list(res.shape), "called_super": bool(seen)}
+    if kind == "op_hcAB":
+        from pybrops.opt.algo import pymoo_addon as PA
+        p = case["prob"]
+        prob = _mk_subset_problem(p)
+        before = _snap(prob)
+        x = numpy.array(case["x"], dtype=int); x0 = x.copy()
+        setspace = numpy.array(p["cand"], dtype=int)
+        op = (PA.MutatorA if case["which"] == "A" else PA.MutatorB)(setspace=setspace, phc=1.0, nhcstep=case["nhcstep"])
+        s = _Script(case["seed"])
+        with _patched_random(s):
+            res = op.hillclimb(prob, x)
+        res = numpy.asarray(res)
+        return {"out": res.tolist(), "dtype": str(res.dtype), "log": s.log, "x_unchanged": bool(numpy.array_equal(x, x0)),
+                "unchanged": _snap(prob) == before, "setspace_unchanged": setspace.tolist() == p["cand"]}
     if kind == "ga":
         import importlib
         algo_name = case["algo"]
@@ -447,6 +478,15 @@ def run_impl(case):
         seen = {}
         orig_min = mod.minimize
         def watched(*a, **k):
+            try:
+                alg = k.get("algorithm", a[1] if len(a) > 1 else None)
+                smp = alg.initialization.sampling; cx = alg.mating.crossover; mu = alg.mating.mutation
+                seen["ops"] = {"sampling": type(smp).__name__, "crossover": type(cx).__name__, "mutation": type(mu).__name__,
+                               "replace": getattr(smp, "replace", None),
+                               "sampling_setspace": None if not hasattr(smp, "setspace") else numpy.asarray(smp.setspace).tolist(),
+                               "mutation_setspace": None if not hasattr(mu, "setspace") else numpy.asarray(mu.setspace).tolist()}
+            except Exception as e:
+                seen["ops"] = {"error": "%s: %s" % (type(e).__name__, e)}
             res = orig_min(*a, **k)
             seen["resX_none"] = res.X is None
             try: seen["pop_min_cv"] = float(numpy.min(res.pop.get("CV")))
@@ -466,6 +506,7 @@ def run_impl(case):
         ncalls = len(prob.calls)
         out = _solution_out(prob, soln, before, subset)
         out["ncalls"] = ncalls
+        out["ops"] = seen.get("ops")
         return out
     raise ValueError("unknown kind %r" % kind)
 
@@ -572,6 +613,23 @@ def emit_case(case, out):
                          % (zl(case["setspace"]), zl(x), u, pq, rn["size"], ch["n"], ch["size"], pq, E.lst(ch["ix"], E.nat), zl(out["Xm"][i])))
         if log: return "false"
         return "(" + "\n  && ".join(parts) + ")"
+    if kind == "op_hcAB":
+        p = case["prob"]; x = case["x"]; k = len(x); na = len(p["cand"]) - k
+        nh = k if case["nhcstep"] is None else case["nhcstep"]
+        log = list(out["log"])
+        def tiles(a):
+            ix = []
+            for t in range(nh // a + 1):
+                if not log: raise ValueError("request log too short")
+                l = log.pop(0)
+                want = a if t < nh // a else nh % a
+                if l["fn"] != "choice" or l["n"] != a or l["size"] != want or l["replace"] is not False: raise ValueError("unexpected request %r" % (l,))
+                ix += l["ix"]
+            return ix
+        lociix = tiles(k); alleleix = tiles(na)
+        if len(log) != 1 or log[0]["fn"] != "choice" or out["dtype"] != "int64": return "false"
+        return ("(let ss := %s in let x := %s in let li := %s in let ai := %s in tiled_ok %d %d li && tiled_ok (length (complement ss x)) %d ai "
+                "&& zl_eqb (mutAB_hillclimb ss x li ai) %s)" % (zl(p["cand"]), zl(x), E.lst(lociix, E.nat), E.lst(alleleix, E.nat), k, nh, nh, zl(out["out"])))
     if kind == "op_round":
         if out["res"] is None or out["dtype"] != case["dtype"] or out["shape"] != case["shape"] or not out["called_super"]: return "false"
         return "zl_eqb (int_round %s) %s" % (E.lst([Fraction(v) for v in case["vals"]], E.q), zl(out["res"]))
@@ -677,6 +735,18 @@ def pred(case, out):
     bad = []
     if kind in ("sort", "sd", "ssd", "ga"):
         _monitor(case, out, bad)
+    if kind == "ga" and "prob" in case:
+        # the operator theorems apply to the run only if the optimiser is configured with the verified operators
+        ops = out.get("ops") or {}
+        cand = case["prob"]["cand"]
+        if ops.get("sampling") != "SubsetRandomSampling" or ops.get("replace") is not False or ops.get("sampling_setspace") != cand:
+            bad.append("initial population is not drawn by SubsetRandomSampling(setspace=decn_space, replace=False): %r" % (ops,))
+        if ops.get("crossover") != "ReducedExchangeCrossover": bad.append("crossover operator is %r, not ReducedExchangeCrossover" % ops.get("crossover"))
+        want_mu = {"NSGA2SteepestDescentSubsetGeneticAlgorithm": "MultiObjectiveSteepestDescentHillClimberMutation",
+                   "NSGA2StochasticDescentSubsetGeneticAlgorithm": "StochasticHillClimberMutation",
+                   "NSGA2MutatorASubsetGeneticAlgorithm": "MutatorA", "NSGA2MutatorBSubsetGeneticAlgorithm": "MutatorB"}.get(case["algo"], "ReducedExchangeMutation")
+        if ops.get("mutation") != want_mu or ops.get("mutation_setspace") != cand:
+            bad.append("mutation operator is %r over %r, expected %s over the decision space" % (ops.get("mutation"), ops.get("mutation_setspace"), want_mu))
     if kind in ("sort", "sd", "ssd") and not bad:
         p = case["prob"]; d = out["decn"][0]; cand = p["cand"]; k = p["k"]
         if out["nsoln"] != 1: bad.append("single-objective optimiser returned %d solutions" % out["nsoln"])
@@ -728,6 +798,12 @@ def pred(case, out):
             if all(e in case["setspace"] for e in x) and len(set(x)) == len(x):
                 if len(y) != len(x) or len(set(y)) != len(y) or any(e not in case["setspace"] for e in y):
                     bad.append("mutant %r of %r is not a subset of the set space" % (y, x))
+    if kind == "op_hcAB":
+        y = out["out"]; cand = case["prob"]["cand"]
+        if not out["x_unchanged"]: bad.append("hillclimb modified its input chromosome")
+        if not out["unchanged"] or not out["setspace_unchanged"]: bad.append("hillclimb modified the problem / set space")
+        if len(y) != len(case["x"]) or any(e not in cand for e in y): bad.append("hill-climbed chromosome %r is not drawn from the candidates" % (y,))
+        if len(set(y)) != len(y): bad.append("hill-climbed chromosome %r repeats a member" % (y,))
     if kind == "op_round":
         if out["dtype"] != case["dtype"]: bad.append("rounded operator output has dtype %s, parents have %s" % (out["dtype"], case["dtype"]))
         elif out["res"] is not None:
@@ -750,6 +826,19 @@ def classify(case, out, clauses):
             nc = (len(case["prob"]["C"]) + len(case["prob"]["D"])) if "prob" in case else len(case["lp"]["C"])
             if pm.get("resX_none") is True and nc > 0 and pm.get("pop_min_cv") is not None and pm["pop_min_cv"] > 0:
                 return "C06-ga-no-feasible-member-raises"
+    if (case["kind"] == "ga" and case["algo"] in ("NSGA2MutatorASubsetGeneticAlgorithm", "NSGA2MutatorBSubsetGeneticAlgorithm")
+            and "exc" not in out and 2 * case["prob"]["k"] > len(case["prob"]["cand"]) and case.get("phc", 0.1) > 0
+            and clauses and all("repeats a member" in c for c in clauses)):
+        return "C06-mutatorAB-duplicate-members"
+    if case["kind"] == "op_hcAB" and "exc" not in out and clauses and all("repeats a member" in c for c in clauses):
+        k = len(case["x"]); nh = k if case["nhcstep"] is None else case["nhcstep"]
+        if nh > len(case["prob"]["cand"]) - k:
+            return "C06-mutatorAB-duplicate-members"
+    if (case["kind"] == "ga" and case["algo"] in MEMETIC[1:] and "exc" in out and case["prob"]["k"] == len(case["prob"]["cand"])
+            and "resX_none" not in (out.get("pymoo") or {})):
+        if ((case["algo"] == MEMETIC[1] and out["exc"] == "ValueError" and "a must be greater than 0" in out.get("msg", "")) or
+                (case["algo"] in MEMETIC[2:] and out["exc"] == "ZeroDivisionError")):
+            return "C06-memetic-full-set-raises"
     return None
 
 def nontrivial(case, out):
@@ -763,6 +852,7 @@ def nontrivial(case, out):
     if kind == "op_cx": return any(out["Xp"][0][i] != a for i, a in enumerate(case["A"]))
     if kind == "op_mut": return True
     if kind == "op_round": return any(Fraction(v).denominator != 1 for v in case["vals"])
+    if kind == "op_hcAB": return out["out"] != case["x"]
     if kind == "ga":
         if "prob" in case: return case["prob"]["k"] < len(case["prob"]["cand"])
         return any(l < h for l, h in zip(case["lp"]["lo"], case["lp"]["hi"]))
